@@ -14,11 +14,11 @@ FIX_S3 = True   # /repo after the fix commit; the tree as found evicted by the i
 INVS = "C10_CacheSoundSeqs C10_CostOk C10_QueueBound"
 
 
-def cfg(spec, vs, qlen, chunk, maxinf, fix_s3=None, post=False, invs=INVS):
-    p = os.path.join(vlib.scratch(), "ingest_%s_%d_%d_%d_%s.cfg" % (spec, maxinf, qlen, chunk, "".join(ch for ch in vs if ch.isdigit())))
+def cfg(spec, vs, qlen, chunk, maxinf, fix_s3=None, post=False, invs=INVS, maxseq=1):
+    p = os.path.join(vlib.scratch(), "ingest_%s_%d_%d_%d_%s_%d.cfg" % (spec, maxinf, qlen, chunk, "".join(ch for ch in vs if ch.isdigit()), maxseq))
     with open(p, "w") as f:
-        f.write("SPECIFICATION %s\nCONSTANTS\n Actors = {1, 2}\n Vs = %s\n QLen = %d\n Chunk = %d\n MaxInflight = %d\n SeenMax = %d\n Keep = 0\n FixS3 = %s\n FixEmptySeen = FALSE\nINVARIANTS %s\n"
-                % (spec, vs, qlen, chunk, maxinf, qlen, "TRUE" if (FIX_S3 if fix_s3 is None else fix_s3) else "FALSE", invs))
+        f.write("SPECIFICATION %s\nCONSTANTS\n Actors = {1, 2}\n Vs = %s\n MaxSeq = %d\n QLen = %d\n Chunk = %d\n MaxInflight = %d\n SeenMax = %d\n Keep = 0\n FixS3 = %s\n FixEmptySeen = FALSE\nINVARIANTS %s\n"
+                % (spec, vs, maxseq, qlen, chunk, maxinf, qlen, "TRUE" if (FIX_S3 if fix_s3 is None else fix_s3) else "FALSE", invs))
         if post:
             f.write("POSTCONDITION TraceAccepted\n")
     return p
@@ -49,8 +49,18 @@ def oracle(events):
                 if ev["dropped"]["k"] != "none":
                     d = ev["dropped"]
                     for j, p in enumerate(pending):
-                        if p == d and p.get("_q"):
+                        if {k: p[k] for k in d} == d and p.get("_q"):
                             pending.pop(j); break
+                    # the dropped changeset must not stay marked as seen unless something else covers it
+                    if d["k"] == "full":
+                        inc = ev["c"]
+                        for s in ev.get("still_seen", []):
+                            by_incoming = inc["k"] == "full" and inc["a"] == d["a"] and inc["v"] == d["v"] and inc["lo"] <= s <= inc["hi"]
+                            ok = by_incoming or ((d["a"], d["v"]) in held_full) or s in part.get((d["a"], d["v"]), set()) or any(
+                                p["a"] == d["a"] and p["v"] == d["v"] and (p["k"] == "empty" or p["lo"] <= s <= p["hi"]) for p in pending)
+                            if not ok:
+                                fails.append("changeset %s was dropped from the full queue at event %d but seq %d of it stays marked as seen although nothing held, queued or in flight covers it: re-offers will be suppressed" % (json.dumps(d), i + 1, s))
+                                break
                 c = dict(ev["c"]); c["_q"] = True
                 pending.append(c)
         elif e == "spawn":
@@ -78,12 +88,12 @@ def oracle(events):
     return fails
 
 
-def walk(seed, qlen, chunk, nvers, steps):
+def walk(seed, qlen, chunk, nvers, steps, nseqs=2):
     out = os.path.join(vlib.scratch(), "ing.%d.ndjson" % seed)
-    p = vlib.run_vh(["ingest-walk", str(seed), str(qlen), str(chunk), str(nvers), str(steps), out], timeout=600)
+    p = vlib.run_vh(["ingest-walk", str(seed), str(qlen), str(chunk), str(nvers), str(steps), out], timeout=600, env_extra={"VH_NSEQS": str(nseqs)})
     if p.returncode != 0:
         return seed, None, {"error": p.stderr[-1500:]}
-    c = cfg("TraceSpec", "{1, 2, 3}", qlen, chunk, 5, post=True)
+    c = cfg("TraceSpec", "{1, 2, 3}", qlen, chunk, 5, post=True, maxseq=nseqs - 1)
     r = vlib.run_tlc("TraceIngest.tla", c, workers=1, timeout=900, dfs=True, heap="3g", env_extra={"TRACE": out}, dump_trace=False)
     nev = sum(1 for _ in open(out))
     m = re.search(r'"first unmatched event", (\d+)', r.output)
@@ -108,7 +118,9 @@ def run(tier):
             mismatch.append("Ingest.tla violates %s on its own (%s); the recorded runs decide for the code" % (r.violated, rp))
     nwalks = 10 if tier == "quick" else 80
     seeds = [vlib.seed() * 1000 + i for i in range(nwalks)]
-    shapes = [(2, 2, 3, 45), (2, 1, 3, 45), (3, 2, 3, 60)]
+    # few versions split into many chunks keep the cache below its trim threshold (stale entries survive);
+    # many versions exercise the trim
+    shapes = [(3, 1, 1, 60, 6), (2, 2, 3, 45, 2), (3, 2, 1, 60, 8), (2, 1, 3, 45, 2)]
     with ThreadPoolExecutor(max_workers=6) as ex:
         results = list(ex.map(lambda s: walk(s, *shapes[s % len(shapes)]), seeds))
     acc = 0; nev = 0
